@@ -844,7 +844,7 @@ impl Sut for S {
                 let k = kv_u64(line, "k").unwrap_or(0);
                 return if ok { (self.wls[&k].describe(k), "env".into()) } else { ("noop".into(), "env".into()) };
             }
-            "wl_time" | "wl_stage" | "wl_add" | "wl_rm" => {
+            "wl_time" | "wl_stage" | "wl_add" | "wl_rm" | "wl_rmstage" | "wl_addstage" => {
                 let k = kv_u64(line, "k").unwrap_or(0);
                 let Some(info) = self.wls.get(&k).cloned() else { return ("noop".into(), "env".into()) };
                 let stage = kv_u64(line, "stage").unwrap_or(0);
@@ -860,6 +860,24 @@ impl Sut for S {
                     }
                     "wl_stage" => json!({"update_stage_config": {"stage_id": stage, "start_time": kv_u64(line, "start").map(|t| t.to_string()),
                         "end_time": kv_u64(line, "end").map(|t| t.to_string())}}),
+                    "wl_rmstage" => json!({"remove_stage": {"stage_id": stage}}),
+                    "wl_addstage" => {
+                        // a NEW stage appended by the whitelist admin, with its own member list
+                        let n = info.stages.len();
+                        let mut st = json!({"name": format!("stage{}", n + 1), "start_time": kv_u64(line, "start").unwrap_or(0).to_string(),
+                            "end_time": kv_u64(line, "end").unwrap_or(0).to_string(), "mint_price": jcoin((info.denom0, kv_u128(line, "price").unwrap_or(0))),
+                            "mint_count_limit": Value::Null});
+                        if !is_flex(info.kind) {
+                            st["per_address_limit"] = json!(kv_u64(line, "per").unwrap_or(1));
+                        }
+                        let sent: Vec<(u64, u64)> = kv_pairs(line, "mem").unwrap_or_default().into_iter().map(|(a, c)| (a as u64, c as u64)).collect();
+                        let members: Vec<Value> = sent.iter().map(|(a, c)| if is_flex(info.kind) { json!({"address": addr(*a), "mint_count": c}) } else { json!(addr(*a)) }).collect();
+                        if info.kind == WlKind::TieredMerkle {
+                            json!({"add_stage": {"stage": st, "merkle_root": hex::encode(hash(true, b"unused")), "merkle_tree_uri": Value::Null}})
+                        } else {
+                            json!({"add_stage": {"stage": st, "members": members}})
+                        }
+                    }
                     "wl_add" => {
                         let a = addr(who);
                         let m = if is_flex(info.kind) { json!({"address": a, "mint_count": kv_u64(line, "c").unwrap_or(1)}) } else { json!(a) };
@@ -879,7 +897,29 @@ impl Sut for S {
                     }
                 };
                 let accepted = self.w.exec(&addr(WLADMIN), &info.addr, &msg, &[]).is_ok();
+                // a removed stage takes its ghost list — and those of all later stages — with it (observe keeps ghosts by index
+                // only for the stages that still exist); a re-added stage at the same index starts from what the harness SENT
+                if accepted && op == "wl_rmstage" {
+                    if let Some(i) = self.wls.get_mut(&k) {
+                        i.stages.truncate(stage as usize);
+                        i.trees.truncate(stage as usize);
+                    }
+                }
+                let n_before = self.wls.get(&k).map(|i| i.stages.len()).unwrap_or(0);
                 self.observe(k);
+                if accepted && op == "wl_addstage" {
+                    let sent: BTreeSet<u64> = kv_pairs(line, "mem").unwrap_or_default().into_iter().map(|(a, _)| a as u64).collect();
+                    let price = kv_u128(line, "price").unwrap_or(0);
+                    if let Some(i) = self.wls.get_mut(&k) {
+                        if i.stages.len() == n_before + 1 {
+                            let st = i.stages.last_mut().unwrap();
+                            st.gmembers = sent;
+                            st.price0 = price;
+                            st.leaves = vec![];
+                            i.trees.push(Tree::default());
+                        }
+                    }
+                }
                 // ghost member lists: what the harness itself put on / took off (accepted messages only)
                 if accepted {
                     let si = if is_tiered(info.kind) { stage as usize } else { 0 };
@@ -1997,7 +2037,27 @@ fn random_case(ses: &mut Session, sut: &mut S, g: &mut Gen, v: usize, steps: u64
                         let si = g.rng.below(info.stages.len() as u64);
                         let st = &info.stages[si as usize];
                         let near = [now.saturating_sub(1), now, now + 1, now + 50, st.start + 1, st.end.saturating_sub(1), st.end + 1, snap.start, snap.start + 1];
-                        match g.rng.below(4) {
+                        match g.rng.below(5) {
+                            4 => {
+                                // stage surgery (list-based tiered kinds): drop a later stage, or append one with a new member list
+                                if matches!(info.kind, WlKind::Tiered | WlKind::TieredFlex) {
+                                    if info.stages.len() > 1 && g.rng.chance(1, 2) {
+                                        do_step(ses, sut, &format!("wl_rmstage k={k} stage={}", 1 + g.rng.below(info.stages.len() as u64 - 1)));
+                                    } else {
+                                        let last = info.stages.last().map(|s| s.end).unwrap_or(now);
+                                        let a = last.max(now) + g.rng.below(60);
+                                        let b = a + 1 + g.rng.below(300);
+                                        let mut ms: Vec<String> = vec![];
+                                        for m in MEMBERS.iter().chain(OUTSIDERS.iter()) {
+                                            if g.rng.chance(1, 2) {
+                                                ms.push(format!("{m}:{}", 1 + g.rng.below(3)));
+                                            }
+                                        }
+                                        let mem = if ms.is_empty() { "-".to_string() } else { ms.join(",") };
+                                        do_step(ses, sut, &format!("wl_addstage k={k} start={a} end={b} price={} per={} mem={mem}", 60_000_000 + g.rng.below(5) * 1000, 1 + g.rng.below(3)));
+                                    }
+                                }
+                            }
                             0 | 1 => {
                                 if is_tiered(info.kind) {
                                     let a = *g.rng.pick(&near);
@@ -2223,6 +2283,10 @@ fn airdrop_funds(sut: &S) -> String {
 const TRIPLE: [(i64, &str); 3] = [(-1, "m1"), (0, "0"), (1, "p1")];
 fn at(t: u64, d: i64) -> u64 {
     (t as i64 + d) as u64
+}
+/// minters that can mint through a LIST-based tiered whitelist: plain dialect ↔ tiered-whitelist, flex dialect ↔ tiered-whitelist-flex
+fn rebuild_pairs() -> Vec<(usize, WlKind)> {
+    vec![(0, WlKind::Tiered), (1, WlKind::Tiered), (6, WlKind::Tiered), (2, WlKind::TieredFlex), (3, WlKind::TieredFlex), (7, WlKind::TieredFlex)]
 }
 fn compat_kinds(v: usize) -> Vec<WlKind> {
     if v == 9 {
@@ -2532,8 +2596,81 @@ fn hyp_case(ses: &mut Session, sut: &mut S) {
     ses.end_case();
 }
 
+/// Whitelist-admin surgery between attach and mint (seeded change C04-3): a 3-stage list-based tiered whitelist is attached;
+/// before it starts its admin removes stage 1 (which drops stage 2 too) and re-adds two stages with NEW member lists that omit
+/// an old member of each dropped stage, then edits them with AddMembers / RemoveMembers. Membership truth is the harness's
+/// own ghost (what it sent and saw accepted per stage index; a removed stage's ghost goes with all later ones): during a
+/// rebuilt stage an omitted old member must be refused, a listed one accepted.
+fn rebuild_case(ses: &mut Session, sut: &mut S, v: usize, wk: WlKind) {
+    let kind = variant_kind(v);
+    let oe = kind.is_open_edition();
+    let t0 = GENESIS + 50_000_000;
+    let s = t0 + 10_000;
+    let tag = format!("rebuild{}", wl_kind_idx(wk));
+    ses.begin_case(sut, &format!("{} floor rebuild", header(v, t0, 0, 50_000_000, if oe { 5_000_000 } else { 0 }, 500)));
+    let wins = vec![(s - 3000, s - 2600), (s - 2500, s - 2100), (s - 2000, s - 1600)];
+    do_step(ses, sut, &floor_wl_line(1, wk, &wins, 60_000_000, false));
+    let end = if oe { (s + 4000).to_string() } else { "-".into() };
+    let out = do_step(ses, sut, &format!("create sender={ADMIN} start={s} end={end} wl=1 price=100000000 limit=3 ntok=400"));
+    fl(ses, sut, &tag, "create", &out);
+    let flex = is_flex(wk);
+    let per = if flex { 0 } else { 2 };
+    let old = |i: usize| -> Vec<u64> { (FM0..FM1).filter(|m| (*m as usize) % 3 == i).collect() };
+    let (old1, old2) = (old(1), old(2));
+    // the old members that the rebuilt lists OMIT, and brand-new members
+    let (y, x) = (old1[0], old2[0]);
+    let (z, w, late) = (95u64, 96u64, 97u64);
+    let fmt = |ms: &[u64]| ms.iter().map(|m| format!("{m}:{}", if flex { 2 } else { 0 })).collect::<Vec<_>>().join(",");
+    let new1: Vec<u64> = old1[1..].iter().cloned().chain([z]).collect();
+    let new2: Vec<u64> = old2[1..].iter().cloned().chain([w]).collect();
+    let out = do_step(ses, sut, "wl_rmstage k=1 stage=1");
+    let _ = out;
+    fl(ses, sut, &tag, "rmstage", if sut.wls.get(&1).map_or(false, |i| i.stages.len() == 1) { "ok" } else { "err" });
+    do_step(ses, sut, &format!("wl_addstage k=1 start={} end={} price=62000000 per={per} mem={}", wins[1].0, wins[1].1, fmt(&new1)));
+    do_step(ses, sut, &format!("wl_addstage k=1 start={} end={} price=63000000 per={per} mem={}", wins[2].0, wins[2].1, fmt(&new2)));
+    fl(ses, sut, &tag, "addstage", if sut.wls.get(&1).map_or(false, |i| i.stages.len() == 3) { "ok" } else { "err" });
+    // edits of the rebuilt last stage: one more member in, one listed member out
+    do_step(ses, sut, &format!("wl_add k=1 stage=2 a={late} c=2"));
+    let gone = new2[0];
+    do_step(ses, sut, &format!("wl_rm k=1 stage=2 a={gone}"));
+    // rebuilt stage 1
+    do_step(ses, sut, &format!("t now={}", wins[1].0 + 200));
+    let out = probe_mint(ses, sut, new1[0]);
+    fl(ses, sut, &tag, "stage1:listed-member", &out);
+    let out = probe_mint(ses, sut, z);
+    fl(ses, sut, &tag, "stage1:new-member", &out);
+    let out = probe_mint(ses, sut, y);
+    fl(ses, sut, &tag, "stage1:omitted-old-member", &out);
+    let out = probe_mint(ses, sut, x);
+    fl(ses, sut, &tag, "stage1:member-of-other-stage", &out);
+    // rebuilt stage 2 (the one whose old list a broken RemoveStage leaves behind)
+    do_step(ses, sut, &format!("t now={}", wins[2].0 + 200));
+    let out = probe_mint(ses, sut, new2[1]);
+    fl(ses, sut, &tag, "stage2:listed-member", &out);
+    let out = probe_mint(ses, sut, w);
+    fl(ses, sut, &tag, "stage2:new-member", &out);
+    let out = probe_mint(ses, sut, late);
+    fl(ses, sut, &tag, "stage2:added-member", &out);
+    let out = probe_mint(ses, sut, x);
+    fl(ses, sut, &tag, "stage2:omitted-old-member", &out);
+    let out = probe_mint(ses, sut, gone);
+    fl(ses, sut, &tag, "stage2:removed-member", &out);
+    let out = probe_mint(ses, sut, 120);
+    fl(ses, sut, &tag, "stage2:outsider", &out);
+    ses.end_case();
+}
+
 /// the classes without which a run would be vacuous; reached by the deterministic floor cases for EVERY seed
 fn require_floor(ses: &mut Session) {
+    for (v, wk) in rebuild_pairs() {
+        let t = format!("fl:v{v}:rebuild{}", wl_kind_idx(wk));
+        for w in [
+            "create:ok", "rmstage:ok", "addstage:ok", "stage1:listed-member:ok", "stage1:new-member:ok", "stage1:omitted-old-member:err", "stage1:member-of-other-stage:err",
+            "stage2:listed-member:ok", "stage2:new-member:ok", "stage2:added-member:ok", "stage2:omitted-old-member:err", "stage2:removed-member:err", "stage2:outsider:err",
+        ] {
+            ses.require(format!("{t}:{w}"));
+        }
+    }
     for v in 0..9usize {
         let kind = variant_kind(v);
         let oe = kind.is_open_edition();
@@ -2625,6 +2762,9 @@ fn main() {
         }
     }
     hyp_case(&mut ses, &mut sut);
+    for (v, wk) in rebuild_pairs() {
+        rebuild_case(&mut ses, &mut sut, v, wk);
+    }
     // run-time message surface: what the crates' schemas list beyond the ops of this check
     let mut unknown: Vec<String> = vec![];
     for v in 0..10usize {
